@@ -67,6 +67,9 @@ def suite_fonts(ctx, res, n):
                 case = C04.gen_font_case(ctx.rng, fmt)   # prefix-related names, sequences
                 # let shapes recur so <use>/<defs> appear
                 case["svgs"] = [s.replace("M2,2", "M2,2") for s in case["svgs"]]
+            elif fmt.startswith("picosvg") and k % 4 == 0:
+                # different outlines, identical gradients: separate OT-SVG documents that must each define what they reference
+                case = fontgen.make_shared_gradient_case(ctx.rng.getrandbits(32), fmt)
             else:
                 case = next(fontgen.gen_cases(ctx.rng, 1, [fmt]))
             out = fontgen.build(case)
